@@ -258,6 +258,92 @@ template <class P> struct H {
         vh::P("stays_close_to_input", key + ".close", maxDiff(R.asMat33(), M), 16 * noise + 64 * eps());
     }
 
+    // ------------------------------------------------------------------ quaternion <-> angle-axis with NON-canonical inputs
+    // q is a unit quaternion that is in general not canonical (q0 < 0, q0 == 0, q0 tiny, product beyond 180 degrees ...).
+    // Whatever representative is used, conversions must describe the SAME ROTATION.
+    static void quatAngleAxis(const V4& q, const std::string& cls) {
+        Quat Q(q, true);
+        V4 aa = Q.convertQuaternionToAngleAxis();
+        vh::Line in = vh::I(fn("quatToAngleAxis")); putQ(in, q); in.emit(); tol();
+        vh::Line o = vh::O(fn("quatToAngleAxis")); putQ(o, aa); o.emit();
+        std::string key = fn("quatToAngleAxis") + "." + cls;
+        vh::D(key);
+        vh::D(fn("quatToAngleAxis") + (q[0] < 0 ? ".q0_negative" : q[0] == 0 ? ".q0_zero" : ".q0_positive"));
+        M33 Rq = Rot(Q).asMat33();
+        bool degenerate = (double)V3(q[1], q[2], q[3]).norm() < eps() * eps();
+        V3 ax(aa[1], aa[2], aa[3]);
+        vh::P("axis_unit", key + ".unit", std::fabs((double)ax.norm() - 1), 16 * eps());
+        vh::P("angle_in_range", key + ".range", (aa[0] > -(P)PI - 4 * eps() && aa[0] <= (P)PI + 4 * eps()) ? 0.0 : 1.0, 0.0);
+        if (!degenerate) {
+            // same ROTATION: matrix of the angle-axis pair == matrix of the quaternion; and on a rotated vector
+            Rot Ra(aa[0], UV(ax, true));
+            vh::P("angle_axis_of_quaternion_is_same_rotation", key + ".samerot", maxDiff(Ra.asMat33(), Rq), 64 * eps());
+            V3 v(cast(0.3), cast(-1.1), cast(0.7));
+            vh::P("angle_axis_of_quaternion_is_same_rotation", key + ".vec", (double)(Ra.asMat33() * v - Rq * v).norm(), 64 * eps());
+            // angle-axis -> quaternion -> angle-axis: same rotation again, and the quaternion is q or -q
+            Quat Q2; Q2.setQuaternionFromAngleAxis(aa);
+            V4 aa2 = Q2.convertQuaternionToAngleAxis();
+            Rot Rb(aa2[0], UV(V3(aa2[1], aa2[2], aa2[3]), true));
+            vh::P("angle_axis_quaternion_angle_axis_same_rotation", key + ".aqa", maxDiff(Rb.asMat33(), Rq), 64 * eps());
+            double dp = std::min((double)(Q2.asVec4() - q).norm(), (double)(Q2.asVec4() + q).norm());
+            vh::P("quaternion_recovered_up_to_sign", key + ".qsign", dp, 64 * eps());
+            vh::P("canonical_sign", key + ".canon", Q2[0] >= 0 ? 0.0 : 1.0, 0.0);
+        }
+    }
+    // angle-axis -> quaternion for ANY angle (negative, beyond pi, beyond 2pi) and either axis orientation
+    static void angleAxisToQuat(double t, const V3& vIn, const std::string& cls) {
+        P th = cast(t);
+        V4 av(th, vIn[0], vIn[1], vIn[2]);
+        Quat Q; Q.setQuaternionFromAngleAxis(av);               // Vec4 overload: normalises the axis
+        vh::Line in = vh::I(fn("quatFromAngleAxis")); putQ(in, av); in.emit(); tol();
+        vh::Line o = vh::O(fn("quatFromAngleAxis")); putQ(o, Q.asVec4()); o.emit();
+        std::string key = fn("quatFromAngleAxis") + "." + cls;
+        vh::D(key);
+        vh::P("unit_norm", key + ".norm", std::fabs((double)Q.asVec4().norm() - 1), 16 * eps());
+        vh::P("canonical_sign", key + ".canon", Q[0] >= 0 ? 0.0 : 1.0, 0.0);
+        // definition: Rodrigues' formula in long double, R = c 1 + s [u]x + (1-c) u u^T
+        LD n = std::sqrt((LD)vIn[0] * vIn[0] + (LD)vIn[1] * vIn[1] + (LD)vIn[2] * vIn[2]);
+        LD u[3] = {vIn[0] / n, vIn[1] / n, vIn[2] / n}, cth = std::cos((LD)th), sth = std::sin((LD)th);
+        M33 Rod;
+        LD ux[3][3] = {{0, -u[2], u[1]}, {u[2], 0, -u[0]}, {-u[1], u[0], 0}};
+        for (int i = 0; i < 3; ++i) for (int j = 0; j < 3; ++j) Rod[i][j] = (P)((i == j ? cth : 0) + sth * ux[i][j] + (1 - cth) * u[i] * u[j]);
+        vh::P("quaternion_of_angle_axis_is_rodrigues_rotation", key + ".rodrigues", maxDiff(Rot(Q).asMat33(), Rod), 64 * eps() * (1 + std::fabs(t)));
+        // (angle, v), (-angle, -v) and (angle + 2pi, v) are the same rotation
+        Quat Qn; Qn.setQuaternionFromAngleAxis(V4(-th, -vIn[0], -vIn[1], -vIn[2]));
+        vh::P("negated_angle_and_axis_same_rotation", key + ".negneg", maxDiff(Rot(Qn).asMat33(), Rot(Q).asMat33()), 64 * eps());
+        // and back: convertQuaternionToAngleAxis describes the same rotation
+        V4 aa = Q.convertQuaternionToAngleAxis();
+        if ((double)V3(Q[1], Q[2], Q[3]).norm() >= eps() * eps()) {
+            Rot Ra(aa[0], UV(V3(aa[1], aa[2], aa[3]), true));
+            vh::P("angle_axis_quaternion_angle_axis_same_rotation", key + ".back", maxDiff(Ra.asMat33(), Rot(Q).asMat33()), 64 * eps());
+        }
+    }
+    // quaternion product vs rotation composition, including products whose combined angle exceeds 180 degrees (the raw
+    // Hamilton product then has a negative scalar part) -- and the angle-axis of the (non-canonical) product
+    static void quatProduct(const V4& a, const V4& b, const std::string& cls) {
+        Quat A(a, true), B(b, true);
+        Quat C = A * B;                       // multiply(): Hamilton product, normalised, NOT canonicalised
+        vh::Line in = vh::I(fn("quatMul")); putQ(in, a); putQ(in, b); in.emit(); tol();
+        vh::Line o = vh::O(fn("quatMul")); putQ(o, C.asVec4()); o.emit();
+        vh::D(fn("quatMul") + "." + cls + (C[0] < 0 ? ".beyond180" : ".within180"));
+        M33 prod = Rot(A).asMat33() * Rot(B).asMat33();
+        vh::P("quaternion_product_is_composition", fn("quatMul") + "." + cls + ".comp", maxDiff(Rot(C).asMat33(), prod), 64 * eps());
+        quatAngleAxis(C.asVec4(), std::string("product") + (C[0] < 0 ? "_beyond180" : "_within180"));
+    }
+    // guaranteed classes of non-canonical unit quaternions
+    static V4 genNonCanonical(vh::Rng& g, std::string& cls) {
+        V3 v = genVec(g, 1, 1); int k = g.below(6); double w;
+        if (k == 0) { cls = "q0_negative"; w = -g.range(0.05, 0.999); }
+        else if (k == 1) { cls = "q0_zero"; w = 0; }
+        else if (k == 2) { cls = "q0_tiny"; w = (g.coin() ? 1 : -1) * std::pow(10.0, -g.range(isF() ? 2 : 3, isF() ? 6 : 15)); }
+        else if (k == 3) { cls = "q0_near_minus1"; w = -(1 - std::pow(10.0, -g.range(isF() ? 1 : 2, isF() ? 4 : 9))); }
+        else if (k == 4) { cls = "normalised_from_raw"; V4 raw(cast(g.range(-3, 3)), cast(g.range(-3, 3)), cast(g.range(-3, 3)), cast(g.range(-3, 3)));
+            if ((double)raw.norm() < 0.3) raw[1] += 1; Quat Q(raw); return Q.asVec4(); }     // Quaternion(Vec4): normalises, keeps the sign
+        else { cls = "q0_positive"; w = g.range(0.05, 0.999); }
+        double sv = std::sqrt(std::max(0.0, 1 - w * w));
+        V4 q(cast(w), cast(sv) * v[0], cast(sv) * v[1], cast(sv) * v[2]);
+        return q / q.norm();
+    }
     // ------------------------------------------------------------------ unit vectors and axis constructions
     static void perp(const V3& v, const std::string& cls) {
         UV u(v);
@@ -420,7 +506,7 @@ template <class P> struct H {
 
     static void oneCase(vh::Rng& g, bool thoroughAxes) {
         std::string c1, c2, c3;
-        int stream = g.below(22);
+        int stream = g.below(28);
         switch (stream) {
         case 0: { double t = genAngle(g, c1); aboutAxis(g.below(3), t, c1); break; }
         case 1: { double t1 = genAngle(g, c1), t2 = genAngle(g, c2); two(g.coin(), g.below(3), g.below(3), t1, t2, c1 + "_" + c2, true); break; }
@@ -469,6 +555,19 @@ template <class P> struct H {
             Rot B = genRot(g, c2b);
             Rot R = (A * B) * ~B;            // = A up to absolute rounding of the entries
             extractGeneral(R, space, a1, a2, a3, "neargimbal"); break; }
+        case 22: case 23: { V4 q = genNonCanonical(g, c1); quatAngleAxis(q, c1); break; }
+        case 24: { // products: one factor with a large angle so that about half of the products exceed 180 degrees
+            V4 a = genUnitQuat(g, c1), b = genNonCanonical(g, c2);
+            if (a[0] < 0) a = -a; if (b[0] < 0) b = -b;          // two canonical factors; the product need not be
+            quatProduct(a, b, "canonical_factors"); break; }
+        case 25: { // angle-axis with angles outside (-pi, pi], negative angles, either axis orientation
+            int k = g.below(5); double t; c1 = "uniform";
+            if (k == 0) { t = g.range(PI, 2 * PI); c1 = "angle_pi_to_2pi"; }
+            else if (k == 1) { t = -g.range(0.01, PI); c1 = "angle_negative"; }
+            else if (k == 2) { t = g.range(2 * PI, 4 * PI) * (g.coin() ? 1 : -1); c1 = "angle_beyond_2pi"; }
+            else if (k == 3) { t = (g.coin() ? 1 : -1) * (PI + (g.coin() ? 1 : -1) * std::pow(10.0, -g.range(isF() ? 2 : 3, isF() ? 5 : 12))); c1 = "angle_near_pi"; }
+            else t = g.range(-PI, PI);
+            angleAxisToQuat(t, genVec(g), c1); break; }
         default: { // systematic coverage of every Euler sequence with generic and gimbal-lock middle angles
             int n = g.below(54); bool space = n >= 27; n %= 27; int a1 = n / 9, a2 = (n / 3) % 3, a3 = n % 3;
             double t1 = genAngle(g, c1), t2 = genAngle(g, c2), t3 = genAngle(g, c3);
